@@ -564,6 +564,7 @@ def check(pid, tier):
     res += runner.run_pool(recunion_task, [(pid, base, opts) for base in ("dict", "orjson") for opts in (("ADD_SERIALIZATION_CONTEXT",), ("ADD_SERIALIZATION_CONTEXT", "ADD_DIALECT_SUPPORT", "TO_DICT_ADD_OMIT_NONE_FLAG"), ())], chunks=1)
     res += runner.run_pool(member_flags_task, [(pid, base, ("ADD_SERIALIZATION_CONTEXT",)) for base in ("dict", "orjson", "msgpack")]
                            + [(pid, "dict", ("ADD_SERIALIZATION_CONTEXT", "ADD_DIALECT_SUPPORT", "TO_DICT_ADD_OMIT_NONE_FLAG", "TO_DICT_ADD_BY_ALIAS_FLAG"))], chunks=1)
+    res += runner.run_pool(disc_hooks_task, [(pid, base) for base in ("dict", "orjson", "msgpack")], chunks=1)
     res += runner.run_pool(stub_task, [(pid, base, mode, ctx) for base in ("dict", "orjson", "msgpack") for mode in ("lazy", "postponed") for ctx in (False, True)], chunks=1)
     obs, crashes = [], []
     for r in res:
@@ -693,6 +694,90 @@ def member_flags_task(payload):
             obs.append(dict(id=f"{pid}.Gmem{label}/cover", status="refuted", detail="no serializer attempt found in the union helpers (vacuity guard)"))
         obs.append(dict(id=f"{pid}.Hmem{label}/native_run", status="proved" if not first else "refuted", unit="native to_dict on equal members in both declaration orders (bounded)", bounded=True,
                         detail="; ".join(first)[:500], witness=w))
+        return {"obligations": obs}
+    finally:
+        build.drop_module(mod)
+
+
+# ---------------------------------------------------------------------------------------------
+# hooks x class-level discriminator: the base's unit only dispatches; the hooks belong to the unit of the class that is built
+# ---------------------------------------------------------------------------------------------
+DISC_SRC = '''
+from mashumaro.types import Discriminator
+TRACE = []
+@dataclass
+class DBase(MIX):
+    seq: int = 0
+    @classmethod
+    def __pre_deserialize__(cls, d):
+        TRACE.append(("pre", cls.__name__))
+        return dict(d, seq=d.get("seq", 0) + 1)
+    @classmethod
+    def __post_deserialize__(cls, obj):
+        TRACE.append(("post", cls.__name__))
+        return obj
+    class Config(BaseConfig):
+        discriminator = Discriminator(field="kind", include_subtypes=True)
+@dataclass
+class DVar(DBase):
+    kind: str = "v"
+    name: str = ""
+@dataclass
+class DHolder(MIX):
+    items: List[DBase] = field(default_factory=list)
+'''
+
+
+def disc_hooks_task(payload):
+    """a class whose Config declares a discriminator: its from-unit dispatches to the variant's unit, which runs the hooks of the
+    instance it builds - exactly once.  Static obligation on the base's generated unit: no hook call on the path that returns the
+    dispatch; native counted run (bounded) through the base, a holder field and the codec."""
+    pid, base = payload
+    imp, mix, eps = BASES[base]
+    label = f"[{base}/discriminated-base+hooks]"
+    src = "\n".join([g4.PRELUDE, imp]) + DISC_SRC
+    try:
+        mod, recs0 = build.build_module(src)
+    except Exception as e:
+        return {"obligations": [dict(id=f"{pid}.Gdisc{label}/builds", status="refuted", detail=f"{type(e).__name__}: {e}"[:300], witness={"confirmed": True, "source": src, "why": str(e)[:200]})]}
+    try:
+        first = []
+        from mashumaro.codecs.basic import BasicDecoder
+
+        for name, call in (("DBase.from_dict", lambda: mod.DBase.from_dict({"kind": "v", "name": "a"})),
+                           ("DHolder.from_dict", lambda: mod.DHolder.from_dict({"items": [{"kind": "v", "name": "a"}]}).items[0]),
+                           ("BasicDecoder(DBase).decode", lambda: BasicDecoder(mod.DBase).decode({"kind": "v", "name": "a"}))):
+            mod.TRACE.clear()
+            try:
+                got = call()
+                if mod.TRACE != [("pre", "DVar"), ("post", "DVar")]:
+                    first.append(f"{name}: hook trace {mod.TRACE}, expected [('pre', 'DVar'), ('post', 'DVar')]")
+                if got != mod.DVar(1, "v", "a"):
+                    first.append(f"{name}: returned {got!r}, expected DVar(seq=1, kind='v', name='a')")
+            except Exception as e:  # noqa
+                first.append(f"{name}: raised {type(e).__name__}: {str(e)[:120]}")
+        recs = [r for r in harvest.RECORDER.records if recs0 and r.seq >= recs0[0].seq]
+        probs, nunits = [], 0
+        for r in recs:
+            if r.builder is None or r.builder.cls is not mod.DBase:
+                continue
+            for fn in [n for n in ast.parse(r.text).body if isinstance(n, ast.FunctionDef) and g7.unit_identity(n.name) and g7.unit_identity(n.name)[0] == "from"]:
+                nunits += 1
+                hooked = False
+                for stmt in fn.body:
+                    txt = ast.unparse(stmt)
+                    if "__pre_deserialize__" in txt or "__post_deserialize__" in txt:
+                        hooked = True
+                    if isinstance(stmt, ast.Return) and "__unpack_" in txt and hooked:
+                        probs.append(f"{fn.name}: a hook is applied before `{txt[:80]}` - the variant's own unit applies it again")
+                    for sub in ast.walk(stmt):
+                        if isinstance(sub, ast.Return) and sub is not stmt and "__unpack_" in ast.unparse(sub) and hooked:
+                            probs.append(f"{fn.name}: a hook is applied before the dispatch `{ast.unparse(sub)[:80]}`")
+        w = {"confirmed": True, "source": src, "input": "DBase.from_dict({'kind': 'v', 'name': 'a'})", "why": first[0]} if first else None
+        obs = [dict(id=f"{pid}.Gdisc{label}/dispatch_runs_no_hook", status=("proved" if not probs else "refuted") if nunits else "error", unit=f"{nunits} from-units of the discriminated base",
+                    detail="; ".join(sorted(set(probs)))[:500] if nunits else "no unit harvested", witness=w if probs else None),
+               dict(id=f"{pid}.Hdisc{label}/counted_run", status="proved" if not first else "refuted", unit="native decode through the base, a holder field and the codec (bounded)", bounded=True,
+                    detail="; ".join(first)[:500], witness=w)]
         return {"obligations": obs}
     finally:
         build.drop_module(mod)
